@@ -40,9 +40,14 @@ BOUNDS = {
 BOUNDS['replay'] = BOUNDS['quick']
 
 
+WIDE = {'cols': [3, 7, 299], 'labels_dtypes': ['uint8', 'int8', 'int16', 'list']}
+
+
 def rows_for(C, dtype='f64'):
     if dtype == 'i64':
         return ROWS3I
+    if C == 300:
+        return ROWS3
     return ROWS3 if C == 3 else ROWS4
 
 
@@ -67,6 +72,9 @@ def shards(tier):
     for dt in ('f32', 'i64'):
         for t in range(1, b['Tdtype'] + 1):
             out.append({'C': 3, 'T': t, 'prefix': [], 'dtype': dt})
+    # a 300-symbol output layer (blank = 299) with the labels held in small-integer numpy arrays
+    for t in range(1, b['Tdtype'] + 1):
+        out.append({'C': 300, 'T': t, 'prefix': []})
     return out
 
 
@@ -79,7 +87,7 @@ def run_shard(shard, ctx, tier):
     R = len(rows_for(C, dt))
     for rest in itertools.product(range(R), repeat=T - len(prefix)):
         rows = prefix + list(rest)
-        for blank in range(C):
+        for blank in (range(C) if C != 300 else [299]):
             case = {'C': C, 'rows': rows, 'blank': blank}
             if dt != 'f64':
                 case['dtype'] = dt
@@ -127,6 +135,8 @@ def check_case(case, ctx):
     M = [RA[i] for i in rows]
     T = len(M)
     A = np.asarray(M, dtype={'f64': np.float64, 'f32': np.float32, 'i64': np.int64}[dt])
+    if C == 300:
+        return check_wide(case, ctx, M)
     best = brute(M, blank)
     ctx.state((C, tuple(rows), blank, dt))
     labsets = [case['labels']] if 'labels' in case else label_space(C, T, blank)
@@ -210,6 +220,60 @@ def check_case(case, ctx):
                           f'align_text -> {pos}, alignment {seq}: {bad} (labels {labels}, blank {blank}, costs {M})', sub)
 
 
+def check_wide(case, ctx, M3):
+    """C = 300 symbols: the three interesting symbols sit in columns 3, 7 and 299 (blank); every other column costs 9"""
+    from pero_ocr.core.force_alignment import force_align, align_text
+    T = len(M3)
+    cols = WIDE['cols']
+    A = np.full((T, 300), 9.0)
+    for t in range(T):
+        for k, c in enumerate(cols):
+            A[t, c] = M3[t][k]
+    best = brute(M3, 2)                 # over the three relevant symbols (0, 1, blank=2); others cannot collapse to the labels
+    ctx.state((300, tuple(case['rows'])))
+    ctx.tag('wide-alphabet-small-int-labels')
+    for lab3 in label_space(3, T, 2):
+        if 2 in lab3:
+            continue
+        labels = [cols[l] for l in lab3]
+        key = tuple(lab3)
+        exists = key in best
+        finite = exists and best[key] < INF
+        for ldt in WIDE['labels_dtypes']:
+            lab_arg = list(labels) if ldt == 'list' else np.asarray(labels, dtype=ldt)
+            sub = dict(case, labels=labels, labels_dtype=ldt)
+            K = f'{ID}/C300/{ldt}'
+            for blank_arg in (299, np.int64(299)):
+                ctx.executed()
+                try:
+                    got = [int(x) for x in force_align(A.copy(), lab_arg, blank_arg)]
+                except ValueError:
+                    if finite:
+                        ctx.violation('failure-iff-no-alignment', f'{K}/force_align/false-failure',
+                                      f'labels {labels} ({ldt}), blank {blank_arg!r}, T={T}: ValueError although an alignment of cost {best[key]} exists', sub)
+                        return
+                    continue
+                if not exists:
+                    ctx.violation('failure-iff-no-alignment', f'{K}/force_align/missed-failure', f'labels {labels} ({ldt}), T={T}: returned {got}', sub)
+                    return
+                back = [cols.index(g) if g in cols else -1 for g in got]
+                if len(got) != T or -1 in back or collapse(back, 2) != key:
+                    ctx.violation('collapses-to-labels', f'{K}/force_align/not-collapsing',
+                                  f'labels {labels} ({ldt}), blank {blank_arg!r}: returned {got}, which does not collapse to the labels', sub)
+                    return
+                cost = sum(M3[t][s] for t, s in enumerate(back))
+                if finite and abs(cost - best[key]) > 1e-9:
+                    ctx.violation('minimum-cost', f'{K}/force_align/suboptimal', f'labels {labels} ({ldt}): cost {cost}, minimum {best[key]}', sub)
+                    return
+            if finite and ldt != 'list':
+                pos = [int(x) for x in align_text(A.copy(), np.asarray(labels, dtype=ldt), np.int64(299))]
+                ctx.executed()
+                if len(pos) != len(labels) or any(a >= b for a, b in zip(pos, pos[1:])):
+                    ctx.violation('positions-most-confident-frame', f'{K}/align_text/not-increasing', f'labels {labels} ({ldt}): positions {pos}', sub)
+                    return
+    ctx.outcome(('wide', T))
+
+
 def describe(tier):
     b = BOUNDS[tier]
     return {
@@ -225,5 +289,5 @@ def describe(tier):
                         'per-frame confidence = max over symbols of the frame (as stated: "where the network is most confident")'],
         'min_nontrivial': 100,
         'required_tags': ['repeated-label-aligned', 'multi-frame-char-with-distinct-confidences', 'only-infinite-alignments',
-                          'non-float64-cost-matrices'],
+                          'non-float64-cost-matrices', 'wide-alphabet-small-int-labels'],
     }
